@@ -53,10 +53,11 @@ case "$ID" in
     # build runs as a child too, because there a broken invariant is undefined behaviour and may kill it.
     W=""
     for v in dbg chk rel; do
-      rm -f "$B/c06_$v".*
+      rm -f "$B/c06_$v".* "$ROOT/replays/C06/hang.json"
       case $v in dbg) exe="$B/dbg/dbg/mc";; chk) exe="$B/chk/release/mc";; rel) exe="$B/rel/release/mc";; esac
       "$exe" c06-worker "$B/c06_$v"; rc=$?
       if [ $rc -ge 128 ]; then echo "signal $((rc-128))" > "$B/c06_$v.crash";
+      elif [ $rc -eq 1 ] && [ -f "$ROOT/replays/C06/hang.json" ]; then exit 1;  # the hang watchdog of the worker reported (and printed) the violation
       elif [ $rc -ne 0 ]; then echo "MACHINERY: C06 worker $v failed with exit $rc"; exit 3; fi
     done
     C06_WORKERS="$B/c06_rel,$B/c06_dbg,$B/c06_chk" exec "$B/rel/release/mc" C06 "$@" ;;
@@ -71,7 +72,10 @@ case "$ID" in
     W=""
     for v in idx pro chk u16 nostd; do
       rm -f "$B/c15_$v".*
-      timeout 600 "$B/$v/release/mc" c15-worker "$B/c15_$v" || { echo "MACHINERY: C15 worker $v failed"; exit 3; }
+      rm -f "$ROOT/replays/C15/hang.json"
+      timeout 600 "$B/$v/release/mc" c15-worker "$B/c15_$v"; rc=$?
+      if [ $rc -eq 1 ] && [ -f "$ROOT/replays/C15/hang.json" ]; then exit 1; fi  # hang watchdog of the worker reported the violation
+      if [ $rc -ne 0 ]; then echo "MACHINERY: C15 worker $v failed (exit $rc)"; exit 3; fi
       W="$W,$B/c15_$v"
     done
     C15_WORKERS="$W" exec "$B/rel/release/mc" C15 "$@" ;;
